@@ -60,7 +60,7 @@ PLANS = {
     "C14": P("30 collections (empty / null / empty-string literal and computed, literal arrays of expressions, computed arrays incl. operation-shaped data, multi-byte strings literal and computed, non-collections, literal arrays with probes and poisons after the deciding element) x 14 predicates x {all, some, none}; all strings of length 0..3 over the multi-byte alphabet; random. Judged against the reference model (value, short-circuit via the log trace), none = not some, all(p) = none(not p) on non-empty input, one element per character. Non-trivial = every case; distinct by (rule, data) text. Every run ends with a size ladder: the same monitors at sizes 6..5000 around powers of two (operand counts, collection / string / key-list lengths, deciding positions first / middle / last, nesting depths, digit counts).",
              ["c14.model", "c14.none-is-not-some", "c14.all-none-duality", "c14.chars"], cells=["all:empty-computed:false", "none:null-literal:true", "some:multibyte-string-computed:true", "all:bad-literal:err", "all:literal-with-probes-and-poison-after-decider:false"]),
     "C18": P("(rule text, data text, supply form) triples: texts from the other properties' corpora (log rules, erroring rules, big / small numbers, non-ASCII, escapes, strings with newlines, pretty-printed variants), invalid texts on either side (36 malformed forms, 1e400, duplicate keys), nesting at and beyond the recursion limit (127, 128, 129 ... 200 000 levels), three ways of supplying the data (argument, stdin, '-'); debug and release binaries. Each invocation's exit status and stdout are compared with the library reached as a separate process (log lines, then exactly one result line; on failure only the log lines and a non-zero status); chain law on log-free first stages. Non-trivial = the rule is an operation or an input is invalid; distinct by (rule, data, form).",
-             ["c18.faithful", "c18.chain", "c18.tty-stdin", "c18.write-failure", "c01.cli"], inproc={"quick": [], "thorough": []}, proc={"quick": [PL.cli_lane], "thorough": [PL.cli_lane]},
+             ["c18.faithful", "c18.chain", "c18.tty-stdin", "c18.write-failure", "c18.environment-independence", "c01.cli"], inproc={"quick": [], "thorough": []}, proc={"quick": [PL.cli_lane], "thorough": [PL.cli_lane]},
              cells=["cli:arg:ok", "cli:stdin:ok", "cli:dash:ok", "cli:arg:parse-error", "cli:stdin:eval-error", "class:over-limit-data", "class:big-multibyte-data", "class:invalid-data-multibyte", "chain", "tty-stdin"], evaluations=500),
     "C19": P("JSON texts and the Python objects decoded from them (dict / list / str / int incl. beyond 64 bits / float / bool / None, non-finite floats) through jsonlogic_rs.apply (data omitted / given x serializer omitted / tagging wrapper x deserializer omitted / tagging wrapper) and jsonlogic_rs.apply_serialized (data omitted / None / given x deserializer omitted / given); malformed texts and over-limit nesting; debug and release extension, each in child interpreters. The return value must equal json.loads(library result) under a type-exact comparison (bool / int / float distinguished, floats by hex), errors must be exactly ValueError, supplied (de)serialisers must be called exactly once per argument. Non-trivial = the rule is an operation or an input is malformed; distinct by (rule, data) text.",
              ["c19.apply", "c19.apply_serialized", "c19.serializer-calls", "c19.stateless-wrapper"], inproc={"quick": [], "thorough": []}, proc={"quick": [PL.py_lane], "thorough": [PL.py_lane]},
